@@ -1530,6 +1530,12 @@ func conv(fr *frame, instr ssa.Instruction, tdst, tsrc types.Type, x Val) Val {
 					if v.sort.K == KInt {
 						return fromInt(wrapInt(v, dw, dsigned), dw, dsigned)
 					}
+					if in.intMode && dw > sw && !ssigned {
+						// a narrow value that came from an Int term goes back to the Int encoding
+						if x, ok := bvAsInt(v); ok {
+							return fromInt(x, dw, dsigned)
+						}
+					}
 					var r *Term
 					if dw <= sw {
 						r = mkExtract(dw-1, 0, v)
